@@ -177,6 +177,25 @@ func newHost(c *Case, texts []string) (h *host, err error) {
 				h.fcalls = append(h.fcalls, callRec{name, valsOf(args)})
 				return nil, nil
 			})
+		case "bump":
+			// a host function that WRITES a variable through the storer while the expression that calls it
+			// is being evaluated: $x += 1, returns the new value (see EffStore in spec/YarnExpr.tla)
+			dr.AddFunction(name, func(args []*variable.Value) (*variable.Value, error) {
+				h.fcalls = append(h.fcalls, callRec{name, valsOf(args)})
+				if len(args) != 0 {
+					return nil, fmt.Errorf("%s takes no argument", name)
+				}
+				if h.storer == nil {
+					return nil, fmt.Errorf("%s needs a host storer", name)
+				}
+				v, ok := h.storer.GetValue("x")
+				if !ok || v.Number == nil {
+					return nil, fmt.Errorf("%s: $x is not a number", name)
+				}
+				n := *v.Number + 1
+				h.storer.SetNumberValue("x", n)
+				return variable.NewNumber(n), nil
+			})
 		case "idstr": // converted functions whose parameters are named types
 			if err := dr.ConvertAndAddFunction(name, func(m hostMood) string { return string(m) }); err != nil {
 				return nil, fmt.Errorf("registration of %s refused: %w", name, err)
